@@ -126,6 +126,8 @@ class PropertyRun:
             for o in sm["obligations"]:
                 ob = Obligation(o["name"], [], z3.BoolVal(True), o["theory"])
                 ob.result = smt.Result("unsat", o["backend"], o["ms"])
+                if o.get("cross"):
+                    ob.result.cross = o["cross"]
                 ob.smt2 = o.get("smt2")
                 rep.obligations.append(ob)
             self.reports.append(rep)
@@ -187,7 +189,7 @@ def _verify_worker(idx):
     sample = None
     for ob in rep.obligations:
         r = ob.result
-        obs.append({"name": ob.name, "status": r.status, "backend": r.backend, "ms": round(r.ms, 2), "theory": ob.theory})
+        obs.append({"name": ob.name, "status": r.status, "backend": r.backend, "ms": round(r.ms, 2), "theory": ob.theory, "cross": getattr(r, "cross", None)})
         if sample is None and r.status == "unsat" and not z3.is_true(ob.goal) and ob.hyps:
             try:
                 txt = smt.to_smt2(ob.hyps, ob.goal)
@@ -315,8 +317,25 @@ def finish(run: PropertyRun, mod):
         "explanation": getattr(mod, "EXPLANATION", ""),
         "exhaustive": bool(getattr(run, "exhaustive", False)),
     }
+    cross = {"checked": 0, "z3-4.8": {}, "cvc5": {}, "disagreements": []}
+    for rep in run.reports:
+        for ob in rep.obligations:
+            c = getattr(ob.result, "cross", None) if ob.result is not None else None
+            if not c or "error" in c:
+                continue
+            cross["checked"] += 1
+            for k in ("z3-4.8", "cvc5"):
+                cross[k][c.get(k, "unknown")] = cross[k].get(c.get(k, "unknown"), 0) + 1
+                if c.get(k) == "sat" and c.get("quantifier_free"):
+                    cross["disagreements"].append(f"{ob.name}: z3 5.1 unsat, {k} sat (quantifier-free)")
+    if cross["checked"]:
+        coverage["solver_cross_check"] = cross
+        if cross["disagreements"]:
+            log("CHECKER-ERROR: solver disagreement on " + "; ".join(cross["disagreements"][:3]))
+            if exit_code == 0:
+                exit_code = 3
     coverage.update(run.extra)
-    if n_proved != n_obl or unsupported:
+    if (n_proved != n_obl or unsupported) and level == "proof":
         # a proof-level claim needs discharged == obligations; otherwise report honestly as 'other'
         level = "other"
         coverage["explanation"] = (coverage["explanation"] + f" NOTE: this run discharged {n_proved} of {n_obl} obligations; " f"{len(unsupported)} function(s) outside the supported subset were covered by the bounded stand-in only.").strip()
@@ -381,6 +400,8 @@ def main(mod):
         ok = mod.replay_file(payload)
         sys.exit(0 if ok else 1)
     run = PropertyRun(mod.PROPERTY, args.tier, args.seed)
+    if args.tier == "thorough":
+        os.environ["PVC_CROSSCHECK"] = "1"  # second opinions (z3 4.8, cvc5) on a sample of the proved obligations
     try:
         mod.check(run)
     except Exception as e:
